@@ -234,7 +234,7 @@ def replay_text(cfg, hist, what):
     return "\n".join(lines) + "\n"
 
 
-def explore(chk, cfg, depth, max_states=None):
+def explore(chk, cfg, depth, max_states=None, stop_at=None):
     label = "caps=%s pipes=%d workers=%d" % (list(cfg["caps"]), cfg.get("npipes", 0), cfg["nw"])
     init = TModel(cfg["caps"], cfg["nw"], cfg.get("npipes", 0))
 
@@ -261,7 +261,7 @@ def explore(chk, cfg, depth, max_states=None):
         chk.violation(e.sig, "%s history=%r: %s" % (label, hist, e.what), replay_text(cfg, hist, e.what))
 
     r = bfs_histories(chk, init, make_actions(cfg), run_layer, jdg, depth, label=label, max_states=max_states,
-                      on_violation=on_violation)
+                      on_violation=on_violation, stop_at=stop_at)
     chk.add(states=r["states"], transitions=r["transitions"], evaluations=r["transitions"])
     chk.part(label, states=r["states"], transitions=r["transitions"], depth_completed=r["depth_completed"],
              depth_target=depth)
@@ -283,17 +283,19 @@ def main():
         cfgs = [(dict(caps=(0,), nw=2), 5), (dict(caps=(1,), nw=2), 5), (dict(caps=(0, 1), nw=2), 4),
                 (dict(caps=(0,), nw=3), 4), (dict(caps=(), nw=2, npipes=1), 5), (dict(caps=(0,), nw=2, npipes=1), 4)]
     else:
-        cfgs = [(dict(caps=(0,), nw=2), 9), (dict(caps=(1,), nw=2), 9), (dict(caps=(2,), nw=2), 8),
+        cfgs = [(dict(caps=(0,), nw=2), 8), (dict(caps=(1,), nw=2), 8), (dict(caps=(2,), nw=2), 7),
                 (dict(caps=(0, 1), nw=2), 6), (dict(caps=(0, 0), nw=2), 6), (dict(caps=(1, 1), nw=2), 6),
                 (dict(caps=(0,), nw=3), 7), (dict(caps=(1,), nw=3), 7), (dict(caps=(0, 1), nw=3), 5),
                 (dict(caps=(), nw=2, npipes=1), 8), (dict(caps=(0,), nw=2, npipes=1), 6),
                 (dict(caps=(), nw=3, npipes=2), 5)]
     done = []
-    for cfg, depth in cfgs:
-        if chk.out_of_time(0.85):
+    for i, (cfg, depth) in enumerate(cfgs):
+        if chk.out_of_time(0.9):
             chk.cap("config %r depth %d not started (time budget)" % (cfg, depth))
             continue
-        r = explore(chk, cfg, depth)
+        # every configuration gets an equal slice of what is left
+        slice_end = chk.elapsed() + (chk.budget * 0.9 - chk.elapsed()) / (len(cfgs) - i)
+        r = explore(chk, cfg, depth, stop_at=slice_end)
         done.append("%s:depth %d" % (cfg, r["depth_completed"]))
     chk.sample({"history": "[('start',0,('dl',2,('give',0,100))), ('tick',2.0), ('start',0,('sleep',3)), ('start',1,('take',0)), ('tick',3.0)]",
                 "meaning": "give times out, fiber then sleeps, another fiber takes the abandoned item: the sleeper must not wake before t=5"})
